@@ -493,7 +493,9 @@ func normalizeValue(
 	case reflect.Struct:
 		if v, ok := tryTConfig(v); ok {
 			c := v.Addr().Interface().(*Config)
-			ret := cfgSub{c}
+			// never attach the caller's Config itself to the temporary tree being
+			// built (that would re-parent it): use a Config sharing its contents
+			ret := cfgSub{&Config{ctx: c.ctx, metadata: c.metadata, fields: c.fields}}
 			if ret.Context().parent != ctx.parent {
 				ret.SetContext(ctx)
 			}
